@@ -162,6 +162,8 @@ def setter_families(run, with_rt=False, inv=("AllWellFormed", "AllGettersOk")):
         ApiFamily("set_closure", r.sample(STARTS_ALL, 3 if q else 6) + ["http://u:p@h:8/a/b?q#f"], sub_ops(run.seed, "cl", 2 if q else 3),
                   mode="closure", invariants=inv, with_rt=with_rt),
     ]
+    # setters on a URL that was never parsed (Parser.NewUrl): every pair of calls over the full alphabet
+    fams.append(ApiFamily("newurl_d2", ["<newurl>"], ALL_SETTER_OPS, depth=3, with_rt=False))
     if not q:
         fams.append(ApiFamily("set_d3_sub", r.sample(STARTS_ALL, 8), sub_ops(run.seed, "d3", 2), depth=4, invariants=inv, with_rt=with_rt))
     return fams
